@@ -141,6 +141,7 @@ func verifC14StepChannels(full bool) {
 		w.checkLookup(f)
 	}
 	w.reach(1, "step-ephemeral-key-removed-by-last-unregister", w.sawEphemeralRemoved)
+	w.reach(1, "step-empty-ephemeral-key-removed-by-unregister-of-a-non-producer", w.sawEphemeralDropped)
 	w.reach(1, "step-disconnect-ran-exit-path", w.sawDisconnect)
 }
 
